@@ -219,6 +219,16 @@ class C05(C.PipelineCheck):
                     culprit = sub
                     if not isinstance(ok2, bool):
                         e.assume(V.z_not(ok2))
+                # ... and from the inside: what hangs below the failing constructors does not matter
+                for k in range(len(culprit) - 1, 0, -1):
+                    sub = culprit[:k]
+                    ok2, kind2, _, _, _ = check_one(e, mode, skeleton(sub, leaf), holes)
+                    bad2 = (ok2 is False) or (not isinstance(ok2, bool) and e.feasible(V.z_not(ok2)))
+                    if not bad2 or kind2 != kind:
+                        break
+                    culprit = sub
+                    if not isinstance(ok2, bool):
+                        e.assume(V.z_not(ok2))
                 key = 'C05/%s/%s/%s:%s' % (site, mode, kind, erase(skeleton(culprit, leaf)))
                 ctx.violation(e, key, 'emitted type denotes the serde JSON shape', True,
                               lambda m, proj=proj, mode=mode, t=t: C.witness_of(proj, m, dict(site=site, mode=mode, type=S.rust_text(t), kind=kind,
